@@ -43,21 +43,25 @@ Lemma with_comments_ok ws : forall vs,
 Proof.
   induction ws as [|w ws IH]; intros vs H; [constructor|]. destruct vs as [|v vs]; [constructor|].
   cbn [forallb] in H. apply andb_true_iff in H as [H1 H2]. cbn [with_comments]. constructor; [|apply IH, H2].
-  cbn [snd]. destruct (fst (snd w)); [exact I|].
-  intros K. unfold mem in H1. apply negb_true_iff in H1.
-  assert (E : existsb (N.eqb ch_lf) (snd (snd w)) = true).
-  { apply existsb_exists. exists ch_lf. split; [exact K | apply N.eqb_refl]. }
-  rewrite E in H1. discriminate.
+  cbn [snd].
+  assert (T : ~ In ch_lf (snd (snd w))).
+  { intros K. unfold mem in H1. apply negb_true_iff in H1.
+    assert (E : existsb (N.eqb ch_lf) (snd (snd w)) = true).
+    { apply existsb_exists. exists ch_lf. split; [exact K | apply N.eqb_refl]. }
+    rewrite E in H1. discriminate. }
+  assert (Z : ~ In ch_lf (@nil N)) by (intros []).
+  destruct (fst (snd w)) as [|p]; [constructor|].
+  destruct p as [p|p|]; try destruct p; repeat constructor; assumption.
 Qed.
 
-(* scan_show_record for every regular record type, with the schema read off the code *)
-Theorem scan_show_record_typed e : In e type_schemas ->
+(* scan_show_record for any schema whose writer and reader sides agree *)
+Lemma scan_show_record_schema e : schema_ok e = true ->
   exists ks, schema_kinds e = Some ks /\
   forall k owner ttl cl vs, wf_name owner -> ttl <= 4294967295 -> cl < 65536 -> wf_fields ks vs ->
   exists t, show_record k (typed_record e owner ttl cl vs) = Ok t /\
             read_record ks t = Ok (owner, ttl, cl, s_code e, vs).
 Proof.
-  intros Hin. pose proof type_schemas_ok as A. rewrite forallb_forall in A. specialize (A e Hin).
+  intros A.
   unfold schema_ok in A. apply andb_true_iff in A as [A A4]. apply andb_true_iff in A as [A A3].
   apply andb_true_iff in A as [A1 A2].
   destruct (schema_kinds e) as [ks|] eqn:K; [|discriminate]. exists ks. split; [reflexivity|].
@@ -75,6 +79,35 @@ Proof.
   rewrite R. unfold typed_record. cbn [r_owner r_ttl r_class r_type r_fields]. rewrite with_comments_fst by exact L.
   reflexivity.
 Qed.
+
+(* ... for every regular record type, with the schema read off the code *)
+Theorem scan_show_record_typed e : In e type_schemas ->
+  exists ks, schema_kinds e = Some ks /\
+  forall k owner ttl cl vs, wf_name owner -> ttl <= 4294967295 -> cl < 65536 -> wf_fields ks vs ->
+  exists t, show_record k (typed_record e owner ttl cl vs) = Ok t /\
+            read_record ks t = Ok (owner, ttl, cl, s_code e, vs).
+Proof.
+  intros Hin. pose proof type_schemas_ok as A. rewrite forallb_forall in A. apply scan_show_record_schema, A, Hin.
+Qed.
+
+(* ... and for IPSECKEY with each of the gateway forms (none ".", IPv4, IPv6, name) *)
+Lemma ipseckey_schemas_ok : forallb (fun g => schema_ok (resolve_gateway ipseckey_schema g)) ipseckey_gateways = true.
+Proof. vm_compute. reflexivity. Qed.
+
+Theorem scan_show_record_ipseckey g : In g ipseckey_gateways ->
+  let e := resolve_gateway ipseckey_schema g in
+  exists ks, schema_kinds e = Some ks /\
+  forall k owner ttl cl vs, wf_name owner -> ttl <= 4294967295 -> cl < 65536 -> wf_fields ks vs ->
+  exists t, show_record k (typed_record e owner ttl cl vs) = Ok t /\
+            read_record ks t = Ok (owner, ttl, cl, s_code e, vs).
+Proof.
+  intros Hin e. pose proof ipseckey_schemas_ok as A. rewrite forallb_forall in A. apply scan_show_record_schema, (A g Hin).
+Qed.
+
+Example ex_ipseckey_kinds : map (fun g => schema_kinds (resolve_gateway ipseckey_schema g)) ipseckey_gateways
+  = [Some [FUint 255; FUint 255; FUint 255; FDot; FRest]; Some [FUint 255; FUint 255; FUint 255; FIp4; FRest];
+     Some [FUint 255; FUint 255; FUint 255; FWord; FRest]; Some [FUint 255; FUint 255; FUint 255; FName; FRest]].
+Proof. vm_compute. reflexivity. Qed.
 
 (* non-vacuity: MX, DS *)
 Example ex_typed_mx : c06_rec 2 15 [[97]] 300 1 [VUint 10; VName [[109]; [120]]]
@@ -117,3 +150,39 @@ Lemma paren_depth_must_count :
   run (Ok (2, [], MSkip false)) [41; 32; 41; 10] = Ok (0, [], MDone) /\
   run (Ok (1, [], MSkip false)) [41; 32; 41; 10] = Err E_parens.
 Proof. split; vm_compute; reflexivity. Qed.
+
+(* ------------------------------------------------------------------ IPv6 address text: finite facts
+   (the round trip parse_ip6 (show_ip6 g) = Some g itself is tied by T2 `ip6show` / `ip6read`
+   only; proved here: every group's text reads back, contains neither ':' nor '.', and the run
+   that "::" replaces consists of zero groups) *)
+Lemma hex16_roundtrip : forall n, n < 65536 ->
+  parse_hex16 (show_hex16 n) = Some n /\ mem 58 (show_hex16 n) = false /\ mem 46 (show_hex16 n) = false /\
+  forallb plain_char (show_hex16 n) = true.
+Proof.
+  intros n Hn.
+  assert (H : all_below (fun n => opt_is (parse_hex16 (show_hex16 n)) n && negb (mem 58 (show_hex16 n)) &&
+                                   negb (mem 46 (show_hex16 n)) && forallb plain_char (show_hex16 n)) 65536 = true)
+    by (vm_compute; reflexivity).
+  pose proof (all_below_spec _ _ H n Hn) as A. cbv beta in A.
+  apply andb_true_iff in A as [A A4]. apply andb_true_iff in A as [A A3]. apply andb_true_iff in A as [A1 A2].
+  destruct (parse_hex16 (show_hex16 n)) as [x|]; [|discriminate]. cbn [opt_is] in A1. apply N.eqb_eq in A1. subst x.
+  repeat split; try assumption; [destruct (mem 58 _) | destruct (mem 46 _)]; try reflexivity; discriminate.
+Qed.
+
+Definition run_sound (l : list bool) : bool :=
+  let '(st, ln) := zero_run l 0 (0, 0) (0, 0) in
+  (N.to_nat (st + ln) <=? length l)%nat &&
+  forallb (fun b => b) (firstn (N.to_nat ln) (skipn (N.to_nat st) l)) &&
+  Nat.eqb (length (firstn (N.to_nat ln) (skipn (N.to_nat st) l))) (N.to_nat ln).
+
+Lemma zero_run_sound : forall l, length l = 8%nat -> run_sound l = true.
+Proof.
+  intros l L. do 8 (destruct l as [|? l]; [discriminate|]). destruct l; [|discriminate].
+  repeat match goal with b : bool |- _ => destruct b end; vm_compute; reflexivity.
+Qed.
+
+Example ex_ip6_roundtrip :
+  forallb (fun g => match parse_ip6 (show_ip6 g) with Some g' => (Nat.eqb (length g) (length g') && forallb (fun p => fst p =? snd p) (combine g g')) | None => false end)
+    [[0;0;0;0;0;0;0;0]; [0;0;0;0;0;0;0;1]; [8193;3512;0;0;0;0;0;1]; [1;0;0;2;0;0;0;3]; [1;0;0;0;2;0;0;0]; [0;0;0;0;0;65535;258;772];
+     [0;0;0;0;0;0;258;772]; [1;2;3;4;5;6;7;8]; [1;0;3;0;5;0;7;0]; [0;1;0;0;1;0;0;0]; [65535;65535;65535;65535;65535;65535;65535;0]] = true.
+Proof. vm_compute. reflexivity. Qed.
